@@ -5,8 +5,8 @@
    index set in any order, every prescribed values.  gen_* are the definitions REGENERATED from the source. *)
 From Coq Require Import List ZArith Bool Arith Ring Lia.
 Import ListNotations.
-Require Import Base.C05_Np Model.C05_BC Proofs.C05_IdxProofs Proofs.C05_CondenseProofs Proofs.C05_EnforceProofs
-               Proofs.C05_ChainProofs Proofs.C05_PenalizeProofs Gen.C05Gen Dyn.C05Tie.
+Require Import Base.C05_Np Model.C05_BC Model.C05_MPC Proofs.C05_IdxProofs Proofs.C05_CondenseProofs Proofs.C05_EnforceProofs
+               Proofs.C05_ChainProofs Proofs.C05_PenalizeProofs Proofs.C05_EquivProofs Proofs.C05_MPCProofs Gen.C05Gen Dyn.C05Tie.
 
 Definition is_ring {R} (o : ring_ops R) := ring_theory (r0 o) (r1 o) (radd o) (rmul o) (rsub o) (ropp o) (@eq R).
 
@@ -53,7 +53,7 @@ Print Assumptions C05_init_bc_complement.
 (* DOF collections given as a dict of views: the sorted duplicate-free union *)
 Theorem C05_flatten_dofs_union :
   forall n views, (forall v d, In v views -> In d v -> d < n) ->
-    given_ok n (flatten_dofs views) /\ forall d, In d (flatten_dofs views) <-> exists v, In v views /\ In d v.
+    given_ok n (gen_flatten_dict views) /\ forall d, In d (gen_flatten_dict views) <-> exists v, In v views /\ In d v.
 Proof. intros n views H. split; [now apply flatten_dofs_given_ok | intros d; apply flatten_dofs_union]. Qed.
 Print Assumptions C05_flatten_dofs_union.
 
@@ -151,6 +151,25 @@ Proof.
 Qed.
 Print Assumptions C05_enforce_solution_iff.
 
+(* enforce (diag = 1) and condense have the same solutions: y solves the enforced system iff y = x on D and y restricted
+   to I solves the condensed system *)
+Theorem C05_enforce_condense_equivalent :
+  forall (R : Type) (o : ring_ops R), is_ring o ->
+  forall n (A : csr R) (b x y : list R) (I D : list nat) (M' : list (list (nat * R))),
+    csr_valid n A -> length b = n -> length x = n -> length y = n -> split_ok n I D ->
+    enforce_matrix o gen_enforce_idx A D (r1 o) = Some M' ->
+    ((forall i, i < n -> row_dot o (mrow M' i) y = vnth o (gen_enforce_rhs o b x D) i) <->
+     (forall d, In d D -> vnth o y d = vnth o x d) /\
+     matvec o (gen_condense_A (csr_rows A) I) (vsel o y I) = gen_condense_b o (csr_rows A) b x I D).
+Proof.
+  intros R o Rth n A b x y I D M' HA Hb Hx Hy HS EM.
+  assert (BD : forall d, In d D -> d < n) by apply HS.
+  destruct (enforce_matrix_spec o Rth gen_enforce_idx gen_enforce_idx_correct n A D (r1 o) HA BD) as (E & _).
+  rewrite E in EM. injection EM as <-.
+  exact (enforce_condense_equivalent o Rth gen_enforce_idx gen_enforce_idx_correct n A b x y I D HA Hb Hx Hy HS).
+Qed.
+Print Assumptions C05_enforce_condense_equivalent.
+
 (* matrix right-hand side (mass matrix of an eigen- or initial value problem): reduced by the same routine with
    diag = 0: its constrained rows vanish, the stiffness rows become diag * e_d, all other rows act as before *)
 Theorem C05_enforce_mass :
@@ -190,6 +209,25 @@ Theorem C05_penalize_identity :
        /\ vnth o (gen_penalize_rhs o b x D w) i = vnth o b i).
 Proof. exact (@penalize_identity). Qed.
 Print Assumptions C05_penalize_identity.
+
+(* ---- mpc (multipoint constraints x[S] = T x[M] + g): if u solves the reduced system (B, y) that mpc returns, the vector
+   solve_linear builds from it (np.add.at on zeros over the index array U, M, S with the returned expansion) satisfies the
+   constraint exactly and the rows U and M of A x = b — any sparse A, T, any duplicate-free disjoint S, M in any order *)
+Theorem C05_mpc_sound :
+  forall (R : Type) (o : ring_ops R), is_ring o ->
+  forall n (A T : list (list (nat * R))) (b g u : list R) (M S : list nat),
+    length A = n -> length b = n -> rows_in_range n A ->
+    NoDup (M ++ S) -> (forall c, In c (M ++ S) -> c < n) ->
+    length T = length S -> length g = length S ->
+    let U := gen_mpc_U n M S in
+    length u = length U + length M ->
+    matvec o (gen_mpc_B o A T U M S) u = gen_mpc_y o A b g U M S ->
+    let x := gen_expand_tuple o (map (fun _ => r0 o) b) (gen_mpc_perm U M S) (gen_mpc_expand o T g U) u in
+    length x = n /\
+    vsel o x S = vadd o (matvec o T (vsel o x M)) g /\
+    (forall i, In i (U ++ M) -> vnth o (matvec o A x) i = vnth o b i).
+Proof. exact (@mpc_sound). Qed.
+Print Assumptions C05_mpc_sound.
 
 (* ---- non-vacuity: the matrix of finding F6 (row 1 stores nothing), Z entries, D = [0;1;2] and D = [1;0] *)
 Definition ex_A : csr Z := {| indptr := [0; 2; 2; 5; 8]%Z; indices := [1; 0; 3; 0; 2; 1; 3; 2]; data := [1; 2; 3; 0; 5; 6; 7; 8]%Z |}.
